@@ -1214,7 +1214,7 @@ func genProject(t *rapid.T) ProjCase {
 	feats := map[string]bool{}
 	layout := rapid.IntRange(0, 11).Draw(t, "layout")
 	redeclare := 0 // k > 0: the second manifest starts with the (k-1)th dependency of the first one
-	if rapid.IntRange(0, 2).Draw(t, "redeclareInSecondManifest") == 2 {
+	if rapid.IntRange(0, 1).Draw(t, "redeclareInSecondManifest") == 1 {
 		redeclare = rapid.IntRange(1, 4).Draw(t, "redeclareWhich")
 	}
 	second := func() {
@@ -1233,7 +1233,11 @@ func genProject(t *rapid.T) ProjCase {
 		}
 	}
 	addPom := func(path string, max int) {
-		p := renderPom(drawPomSpec(t, max), n)
+		spec := drawPomSpec(t, max)
+		if n.reuse != nil && len(spec.Deps) == 0 {
+			spec.Deps = append(spec.Deps, depSpec{})
+		}
+		p := renderPom(spec, n)
 		n.reuse = nil
 		c.Files[path] = p.Text
 		c.Manifests = append(c.Manifests, Manifest{Path: path, Entries: p.Deps})
@@ -1243,6 +1247,16 @@ func genProject(t *rapid.T) ProjCase {
 		spec := drawGradleSpec(t, max)
 		if noBlock {
 			spec.NoBlock = true
+		}
+		if n.reuse != nil {
+			spec.NoBlock = false
+			takes := false
+			for _, e := range spec.Entries {
+				takes = takes || e.Notation <= nPropertyClosure || e.Notation == nTrailingClosure
+			}
+			if !takes {
+				spec.Entries = append([]entrySpec{{}}, spec.Entries...)
+			}
 		}
 		g := renderGradle(spec, n)
 		n.reuse = nil
@@ -1786,16 +1800,17 @@ func tail(s string, n int) string {
 
 func init() {
 	pbt.SetProperty("C19")
-	pbt.Describe("rapid-generated manifests with ground truth. pom.xml: prolog variants, namespaces, 0-10 <dependency> with children in usual or shuffled order (version incl. ${property}, scope, type, optional, classifier, exclusions with own groupId/artifactId), comments, commented-out dependencies, and parent / properties / dependencyManagement / build-plugins(-with-dependencies) / profiles / repositories before or after. build.gradle: 0-8 entries in single-quoted, double-quoted, parenthesised (both quotes, with exclude / property closures) string notation, project()/fileTree()/files()/gradleApi() entries (must be skipped), map notation / ${} interpolation / platform() (extract-or-skip), several configurations, comments, 15 kinds of surrounding blocks. Projects: one or two manifests plus 0-5 Java files (main and test, classes and interfaces) importing a drawn subset of the declared groups by exact-package, sub-package, wildcard and static imports, plus unrelated imports. Oracles: extraction = exactly the declared (group, artifact, scope/configuration) list in order; unused report (in-process pipeline of the deps command, and the binary of analysis/dep) = exactly the sub-list whose group id occurs in no import. Non-trivial: extraction: >= 3 dependencies and (pom) a decoy dependency section / exclusions / shuffled children, (gradle) >= 2 notations; unused report: >= 3 declared dependencies, used and unused ones interleaved, for gradle >= 2 notations. Distinct = hash of the case.",
+	pbt.Describe("rapid-generated manifests with ground truth. pom.xml: prolog variants, namespaces, 0-10 <dependency> with children in usual or shuffled order (version incl. ${property}, scope incl. an empty <scope/> element, type, optional, classifier, exclusions with own groupId/artifactId, empty <exclusions/>), artifact ids shared by two group ids, artifact ids with dots and underscores, comments between dependencies and between the children of one, commented-out dependencies and children, and parent / properties / dependencyManagement / build-plugins(-with-dependencies) / profiles / repositories before or after; one case in four analyses the same file twice. build.gradle: 0-8 entries in single-quoted, double-quoted, parenthesised (both quotes, with exclude / property / because+version closures) and trailing-closure string notation, project()/fileTree()/files()/gradleApi()/libs.x/testFixtures() entries (must be skipped), map notation / ${} interpolation / platform() / enforcedPlatform() (extract-or-skip), 16 configuration names incl. plugin- and user-defined ones, comments, entries ending in ';' or sharing a line, `dependencies{`, a one-line block, no dependencies block at all, 20 kinds of surrounding blocks incl. dependencyManagement / dependencyLocking / subprojects-with-dependencies; one case in three analyses a second script (one other dependency / no dependencies block / the same script) in the same process without a reset and re-reads the first result. Projects: one or two manifests (pom, gradle, pom+pom, pom+gradle, gradle+gradle, a script without dependencies block next to one with; the second manifest may re-declare a dependency of the first) plus 0-5 Java files (main and test, classes, interfaces, two top-level types in one file, a source directory outside src/main/java, optionally a .gitignore naming single files) importing a drawn subset of the declared groups by exact-package, sub-package, wildcard and static imports, plus unrelated imports. Oracles: extraction = exactly the declared (group, artifact, scope/configuration) list in order; unused report (in-process pipeline of the deps command asked three times on one model, and the binary of analysis/dep with -p/--path/default/absolute path) = exactly the sub-list whose group id occurs in no import. Non-trivial: extraction: >= 3 dependencies and (pom) a decoy dependency section / exclusions / shuffled children, (gradle) >= 2 notations; unused report: >= 3 declared dependencies, used and unused ones interleaved, for gradle >= 2 notations. Distinct = hash of the case.",
 		"group ids are drawn so that none is a substring of another, of a decoy group or of an unrelated import (re-checked inside the oracle)",
-		"map notation, \"g:a:${v}\" and platform('g:a:v') may be extracted (correctly) or skipped; project()/fileTree()/files()/gradleApi() must be skipped",
+		"map notation, \"g:a:${v}\", platform('g:a:v') and enforcedPlatform('g:a:v') may be extracted (correctly) or skipped; project()/fileTree()/files()/gradleApi()/libs.x/testFixtures(project()) must be skipped",
 		"a build.gradle rejected by the shipped Groovy parser (syntax error listener) is skipped and counted",
-		"with two manifests only the order inside each manifest is asserted",
+		"with two manifests only the order inside each manifest is asserted (any interleaving of the two lists is accepted); a dependency declared in both manifests is expected once per declaration",
+		"dependencies blocks nested in buildscript / subprojects / dependencyManagement are not the project's dependencies block: their entries must not be extracted",
 		"comments are placed between elements, never inside the text of groupId/artifactId/scope; XML encodings other than UTF-8 are not generated")
 	pbt.Register("maven", 400, 3000, genPomCase, checkPom)
-	pbt.Register("gradle", 100, 600, genGradleCase, checkGradle)
-	pbt.Register("unused", 120, 900, genProject, checkUnused)
-	pbt.Register("cli", 12, 60, genProject, checkCLI)
+	pbt.Register("gradle", 140, 600, genGradleCase, checkGradle)
+	pbt.Register("unused", 140, 900, genProject, checkUnused)
+	pbt.Register("cli", 14, 60, genProject, checkCLI)
 }
 
 func TestProp(t *testing.T)   { pbt.Main(t) }
